@@ -38,12 +38,13 @@ type point struct {
 }
 
 type signer struct {
-	w      *World
-	sizes  types.Sizes
-	memoFn map[*ssa.Function]int // 0 unknown, 1 in progress, 2 nonneg, 3 not
-	memoFd map[*types.Var]int
-	stores map[*types.Var][]*ssa.Store
-	cg     *callgraph.Graph
+	w       *World
+	sizes   types.Sizes
+	memoFn  map[*ssa.Function]int // 0 unknown, 1 in progress, 2 nonneg, 3 not
+	memoFd  map[*types.Var]int
+	stores  map[*types.Var][]*ssa.Store
+	cg      *callgraph.Graph
+	lenMemo map[string]int
 }
 
 func newSigner(w *World) *signer {
@@ -704,6 +705,18 @@ func pairedCounter(v ssa.Value) (string, bool) {
 func checkSizes(w *World, r *Report) {
 	s := newSigner(w)
 	n, nonTrivial := 0, 0
+	var entry []*ssa.Function
+	for _, m := range []string{"Render", "RenderTo", "Load", "ParseTemplate", "RegisterString", "RegisterTemplate", "LoadFromCompiledData", "CompileTemplate"} {
+		if f := w.tryMethod("Engine", m); f != nil {
+			entry = append(entry, w.ssaFunc(f))
+		}
+	}
+	for _, nm := range []string{"DeserializeCompiledTemplate", "LoadFromCompiled", "SerializeCompiledTemplate"} {
+		if f := w.tryFn(nm); f != nil {
+			entry = append(entry, w.ssaFunc(f))
+		}
+	}
+	reachRoots := w.reachableFrom(entry)
 	for _, fn := range w.pkgFuncs() {
 		instrsOf(fn, func(in ssa.Instruction) {
 			what, vals := sizeSinks(in)
@@ -730,6 +743,10 @@ func checkSizes(w *World, r *Report) {
 						nonTrivial++
 					}
 					r.ok("R05.8", ssaName(fn), construct, w.posOf(in.Pos()), "non-negative by the sign rules (counts, ordered differences, tests on every path, call sites)", !plain)
+				} else if strings.Contains(fmt.Sprint(q.why), "parameter of a function without in-package callers") && !reachRoots[fn] {
+					// an exported utility that no parse, render, load or compiled-data path
+					// reaches: the size is the Go caller's own number, not template or context data
+					r.ok("R05.8", ssaName(fn), construct, w.posOf(in.Pos()), "size supplied by the Go caller of an exported utility that is not reachable from any parse/render/load entry point (outside the property's inputs)", false)
 				} else {
 					r.bad("R05.8", ssaName(fn), construct, w.posOf(in.Pos()), fmt.Sprintf("the size can be negative (%v): the allocation panics instead of returning an error", q.why))
 				}
@@ -780,6 +797,15 @@ func (s *signer) lenAtLeast(fn *ssa.Function, x ssa.Value, n int64, at *ssa.Basi
 			onTrue := i == trueIdx
 			switch cv := c.(type) {
 			case *ssa.Call:
+				// isQuoted(x): a predicate of the package whose every result that can be true is
+				// produced where len(param) >= n is established
+				if g := cv.Call.StaticCallee(); g != nil && onTrue && isTwigFn(g) && len(g.Blocks) > 0 && g != fn {
+					for ai, a := range cv.Call.Args {
+						if ai < len(g.Params) && sameValue(a, x) && s.trueImpliesLen(g, ai, n) {
+							return true
+						}
+					}
+				}
 				if f := calleeFunc(cv); f != nil && onTrue {
 					switch f.FullName() {
 					case "strings.HasPrefix", "strings.HasSuffix", "bytes.HasPrefix", "bytes.HasSuffix":
@@ -1449,4 +1475,43 @@ func checkLookaround(w *World, r *Report) {
 		})
 	}
 	r.Counts["constant look-arounds in strings and byte slices"] = n
+}
+
+// trueImpliesLen: g returns a bool; every return of g whose value is not the constant false lies
+// where len(g.Params[pi]) >= n holds.
+func (s *signer) trueImpliesLen(g *ssa.Function, pi int, n int64) bool {
+	if g.Signature.Results().Len() != 1 || !types.Identical(g.Signature.Results().At(0).Type().Underlying(), types.Typ[types.Bool]) {
+		return false
+	}
+	key := fmt.Sprintf("%p/%d/%d", g, pi, n)
+	if s.lenMemo == nil {
+		s.lenMemo = map[string]int{}
+	}
+	switch s.lenMemo[key] {
+	case 1, 3:
+		return false
+	case 2:
+		return true
+	}
+	s.lenMemo[key] = 1
+	ok, nret := true, 0
+	instrsOf(g, func(in ssa.Instruction) {
+		ret, isRet := in.(*ssa.Return)
+		if !isRet || !ok {
+			return
+		}
+		nret++
+		if isConstBool(ret.Results[0], false) {
+			return
+		}
+		if !s.lenAtLeast(g, g.Params[pi], n, ret.Block()) {
+			ok = false
+		}
+	})
+	if ok && nret > 0 {
+		s.lenMemo[key] = 2
+		return true
+	}
+	s.lenMemo[key] = 3
+	return false
 }
